@@ -66,7 +66,7 @@ type witness struct {
 
 func TestCheck(t *testing.T) {
 	vkit.Run(t, "C19", "fault_enumeration", func(r *vkit.R) {
-		r.Rule("sequences: initial Load, then 3..12 of save / delete / delete-upstream / flush / periodic tick / stop over 1..3 upstreams of the store's shard and 1..2 of the other shard " +
+		r.Rule("sequences: initial Load, then 3..12 of save (fresh object; Get + modify the returned object in place + Save of that pointer; modify an object handed to an earlier Save + Save it again) / delete / delete-upstream / flush / periodic tick / stop (a stop or flush that returns an error is called again up to 3 times, as the limiter does) over 1..3 upstreams of the store's shard and 1..2 of the other shard " +
 			"(3 condition names per upstream so that operations collide; saves of other-shard conditions handed to this store; saves through the other shard's own store), on top of 0..4 pre-existing conditions; " +
 			"both store modes (write-through = syncPeriod 0; periodic = syncPeriod 1h, flush goroutine replaced by explicit ticks). " +
 			"Each sequence runs once without fault to count its API calls c, then once for EVERY position p<=c and EVERY fault kind the API can produce for the verb at p: " +
@@ -112,7 +112,12 @@ func TestCheck(t *testing.T) {
 			r.Eval(1)
 			r.Count("sequences", 1)
 			r.Count("baseline_runs", 1)
-			judge(r, seq, nil, base)
+			judge(r, seq, nil, base, nil)
+			// what already goes wrong without any fault is not attributed to a fault in the faulted runs of the sequence
+			inBaseline := map[string]bool{}
+			for _, f := range base.Findings {
+				inBaseline[f.Oracle+"|"+f.Name] = true
+			}
 			if base.Calls > 0 {
 				r.Distinct(vkit.Hash64(seq.String(), "baseline"))
 			}
@@ -144,7 +149,7 @@ func TestCheck(t *testing.T) {
 				r.Count("fault_runs", 1)
 				r.Count("fault_runs_"+order, 1)
 				r.Distinct(vkit.Hash64(seq.String(), fmt.Sprint(fs)))
-				judge(r, seq, fs, res)
+				judge(r, seq, fs, res, inBaseline)
 				k := last.kind
 				mu.Lock()
 				kinds[k.String()]++
@@ -255,7 +260,7 @@ func describeFaults(fs []fault, hitVerb string) string {
 	return strings.Join(ss, " ")
 }
 
-func judge(r *vkit.R, seq sequence, fs []fault, res runResult) {
+func judge(r *vkit.R, seq sequence, fs []fault, res runResult, inBaseline map[string]bool) {
 	if len(res.Findings) == 0 {
 		return
 	}
@@ -274,19 +279,32 @@ func judge(r *vkit.R, seq sequence, fs []fault, res runResult) {
 		// and the class of the fault (position, verb and exact kind stay in the text and the witness). A finding on a
 		// condition that an operation concurrent with a flush touched is attributed to that concurrency, whatever fault
 		// was injected elsewhere in the run.
+		retried := false
 		sig := fmt.Sprintf("C19/%s/%s/", seq.Mode, f.Oracle)
-		if _, inner, ok := seq.concurrentOn(f.Name); ok && (f.Oracle == "deleted-condition-persists" || f.Oracle == "acknowledged-condition-not-persisted") {
+		if _, inner, ok := seq.concurrentOn(f.Name); ok && res.RanBetween && (f.Oracle == "deleted-condition-persists" || f.Oracle == "acknowledged-condition-not-persisted") {
 			// flush, periodic tick and stop share the flush code, in both modes
 			// (the oracle that notices it depends on what else happens to the condition afterwards: not part of the signature)
 			sig = fmt.Sprintf("C19/flush-not-atomic/%s-concurrent-with-flush", inner)
+		} else if k == noFault || inBaseline[f.Oracle+"|"+f.Name] || (f.Oracle == "acknowledged-save-not-persisted-at-ack" && !res.hitSaveOf(f.Name)) {
+			// (found at the acknowledgement itself: a fault that hit some other operation is not part of the cause)
+			sig += "fault=none"
 		} else {
 			sig += "fault=" + faultClass(k, res.HitVerb)
-			if k != noFault {
+			if res.hitTouches(f.Name) {
 				sig += "/op=" + res.HitOp
+			} else {
+				sig += "/op=on-another-condition" // e.g. a crash anywhere after the acknowledgement concerned
+			}
+			if res.Retried && (res.HitOp == "stop" || res.HitOp == "flush") {
+				sig += "/retried-after-failure"
+				retried = true
 			}
 		}
 		if res.StorePanic != nil {
 			sig += "/store-panicked"
+		}
+		if f.Shape != "" && f.Shape != "save" && (f.Oracle == "acknowledged-condition-not-persisted" || f.Oracle == "acknowledged-save-not-persisted-at-ack") && !retried {
+			sig += "/last-save=" + f.Shape // the acknowledged save handed the store an object it shares with the caller
 		}
 		if seen[sig] {
 			continue
